@@ -205,8 +205,14 @@ func readUserDefinedColForRRCs(segKey string, rrcs []*sutils.RecordResultContain
 
 		blockSummary, err = writer.GetBlockSummaryForKey(segKey)
 		if err != nil {
-			log.Error(ErrGetBlockSummary)
-			return nil, err
+			// The segment can get rotated between the two calls above: it is then registered in the
+			// rotated metadata (rotation adds it there before removing the unrotated info).
+			var rotErr error
+			_, blockSummary, rotErr = segmetadata.GetSearchInfoAndSummary(segKey)
+			if rotErr != nil {
+				log.Error(ErrGetBlockSummary)
+				return nil, err
+			}
 		}
 	} else {
 		_, blockSummary, err = segmetadata.GetSearchInfoAndSummary(segKey)
